@@ -3,6 +3,7 @@ from hypothesis import strategies as st
 
 from harness import strategies as S
 from harness import tk
+from harness import msglife
 from harness.core import Sub, Violation
 from refs import ref_trxd
 
@@ -10,7 +11,9 @@ RULE = ("(1) encoder differential: every generated valid Tx/Rx message (v0/v1, a
         "must encode to exactly the octets of the independent layout model ref_trxd; (2) decoder differential: byte "
         "strings (valid encodings, their mutations: truncation/extension/bit flips/overwritten header octets, and random "
         "headers glued to bursts of every accepted length) - whenever parse_msg accepts, every field must equal the "
-        "layout's interpretation; (3)/(4) trxcon differential through the unmodified trx_if.c (see sub-checks c_rx, c_tx). "
+        "layout's interpretation; (1b) py_sequences / py_object_life: the same comparison for several messages through re-used objects "
+        "and for ONE object changed in place between encodings (fields, burst elements, burst replaced, burst <-> NOPE); "
+        "(5) c_two_instances: two trx_instance objects of one process used alternately with repeated frame numbers; (3)/(4) trxcon differential through the unmodified trx_if.c (see sub-checks c_rx, c_tx). "
         "Non-trivial: message/datagram carrying a burst whose header fields are not all zero.")
 LEVEL = "exploration"
 ASSUMPTIONS = ["ref_trxd (refs/ref_trxd.py) is a faithful transcription of the TRXD v0/v1 layout named in the property",
@@ -145,82 +148,34 @@ seq_case = st.fixed_dictionaries({"reuse": st.booleans(),
 # encoded once per destination): every encoding must be the layout encoding of the object's CURRENT content
 
 def life_oracle(case):
-    m = dict(case["m"])
-    msg = tk.build_msg(m)
+    msg, m = msglife.start(tk, case)
     bkey = "bits" if m["cls"] == "tx" else "soft"
-    if m.get(bkey) is not None:
-        m[bkey] = list(m[bkey])
-    n_enc = n_changed_burst = 0
+    n_enc = 0
+    changes = []
     for k, op in enumerate(case["ops"]):
-        kind = op[0]
-        if kind == "set":
-            f, v = op[1], op[2]
-            if f not in m or (f in ("tsc", "tsc_set") and m.get("nope")):
-                continue
-            if f == "tsc_set" and m.get("mod") != "GMSK":
-                v = v % 2
-            m[f] = v
-            setattr(msg, f, v)
-        elif kind in ("edit", "slice", "new") and m.get(bkey) is not None:
-            b = m[bkey]
-            n = len(b)
-            val = (lambda x: x & 1) if m["cls"] == "tx" else (lambda x: (x % 255) - 127)
-            if kind == "edit":
-                for (i, x) in op[1]:
-                    b[i % n] = val(x)
-                    msg.burst[i % n] = val(x)
-            elif kind == "slice":
-                i, vals = op[1] % n, [val(x) for x in op[2]][:n - op[1] % n]
-                b[i:i + len(vals)] = vals
-                if m["cls"] == "tx":
-                    msg.burst[i:i + len(vals)] = bytearray(vals)
-                else:
-                    from array import array
-                    msg.burst[i:i + len(vals)] = array("b", vals)
-            else:
-                vals = [val(x + j) for j, x in enumerate((op[1] * ((n // max(1, len(op[1]))) + 1))[:n])] if op[1] else [val(0)] * n
-                m[bkey] = vals
-                if m["cls"] == "tx":
-                    msg.burst = bytearray(vals)
-                else:
-                    from array import array
-                    msg.burst = array("b", vals)
-            n_changed_burst += 1
-        elif kind == "encode":
-            legacy = bool(op[1])
-            try:
-                got = bytes(msg.gen_msg(legacy))
-            except ValueError as e:
-                raise Violation("c04:life:valid-message-refused", "step %d: %r" % (k, e))
-            exp = ref_trxd.encode(dict(m, **{bkey: m.get(bkey)}), legacy)
-            n_enc += 1
-            if got != exp:
-                i = next((j for j in range(min(len(got), len(exp))) if got[j] != exp[j]), min(len(got), len(exp)))
-                hl = 6 if m["cls"] == "tx" else (8 if m["ver"] == 0 else 11)
-                raise Violation("c04:encoder-differs-from-layout:%s:v%d:%s:after-in-place-change" % (m["cls"], m["ver"], "hdr" if i < hl else "burst"),
-                                "encoding %d of one object (step %d, after %d burst changes): octet %d toolkit %s layout %s" % (
-                                    n_enc, k, n_changed_burst, i, got[i:i + 4].hex(), exp[i:i + 4].hex()))
-    return (["life/%s/v%d" % (m["cls"], m["ver"]), "encodings=%d" % min(n_enc, 4)], n_enc >= 2 and n_changed_burst >= 1,
+        if op[0] != "encode":
+            r = msglife.apply_op(tk, msg, m, op)
+            if r:
+                changes.append(r)
+            continue
+        legacy = bool(op[1])
+        try:
+            got = bytes(msg.gen_msg(legacy))
+        except ValueError as e:
+            raise Violation("c04:life:valid-message-refused", "step %d: %r" % (k, e))
+        exp = ref_trxd.encode(m, legacy)
+        n_enc += 1
+        if got != exp:
+            i = next((j for j in range(min(len(got), len(exp))) if got[j] != exp[j]), min(len(got), len(exp)))
+            hl = 6 if m["cls"] == "tx" else (8 if m["ver"] == 0 else 11)
+            raise Violation("c04:encoder-differs-from-layout:%s:v%d:%s:after-in-place-change" % (m["cls"], m["ver"], "hdr" if i < hl else "burst"),
+                            "encoding %d of one object (step %d, after changes %r): octet %d toolkit %s layout %s (lengths %d/%d)" % (
+                                n_enc, k, changes[-4:], i, got[i:i + 4].hex(), exp[i:i + 4].hex(), len(got), len(exp)))
+    return (["life/%s/v%d" % (m["cls"], m["ver"]), "encodings=%d" % min(n_enc, 4)] + sorted(set(changes)), n_enc >= 2 and bool(changes),
             {"cls": m["cls"], "ver": m["ver"], "ops": [o[0] for o in case["ops"]]})
 
 
-_setop = st.one_of(
-    st.tuples(st.just("set"), st.just("fn"), S.fn()), st.tuples(st.just("set"), st.just("tn"), st.integers(0, 7)),
-    st.tuples(st.just("set"), st.just("pwr"), st.integers(0, 255)), st.tuples(st.just("set"), st.just("rssi"), st.integers(-120, -47)),
-    st.tuples(st.just("set"), st.just("toa256"), S.biased(-32768, 32767)), st.tuples(st.just("set"), st.just("ci"), S.biased(-1280, 1280)),
-    st.tuples(st.just("set"), st.just("tsc"), st.integers(0, 7)), st.tuples(st.just("set"), st.just("tsc_set"), st.integers(0, 3)))
-_burstop = st.one_of(
-    st.tuples(st.just("edit"), st.lists(st.tuples(st.integers(0, 1000), st.integers(0, 255)), min_size=1, max_size=4)),
-    st.tuples(st.just("slice"), st.integers(0, 1000), st.lists(st.integers(0, 255), min_size=1, max_size=12)),
-    st.tuples(st.just("new"), st.lists(st.integers(0, 255), max_size=6)))
-_enc = st.tuples(st.just("encode"), st.booleans())
-_anyop = st.one_of(_setop, _burstop, _burstop, _enc, _enc).map(list)
-_chg = st.one_of(_setop, _burstop, _burstop, _burstop).map(list)
-# shape: ... encode, >=1 change, encode ... (so that most cases have a change between two encodings of the same object)
-life_case = st.fixed_dictionaries({
-    "m": S.any_msg(),
-    "ops": st.tuples(st.lists(_anyop, max_size=3), _enc.map(list), st.lists(_chg, min_size=1, max_size=4), _enc.map(list),
-                     st.lists(_anyop, max_size=5)).map(lambda t: t[0] + [t[1]] + t[2] + [t[3]] + t[4])})
+life_case = msglife.life_case
 
 
 SUBS = [
